@@ -292,3 +292,64 @@ def argument_mutation_rule(repo: Repo, prop: str, rule_id: str, floor: int = 5) 
                 key=f"mutates:{p}",
             )
     return r
+
+
+def escaping_view_rule(repo: Repo, prop: str, rule_id: str, module_prefixes, floor: int = 2) -> RuleRun:
+    """Constructors that keep coordinates for later - in an attribute or in a closure (the position function of a clamp) - must
+    keep their own copy. ``np.array(p)`` copies; ``np.asarray(p)`` of an ndarray IS the caller's array. Callers pass
+    ``vertex.position``, which Vertex.move_to / backport change in place: the kept geometry (a clamp's line, a link's origin) would
+    move with the vertex. Judged: array-annotated parameters converted with a copying or a non-copying call and then escaping;
+    parameters captured without any conversion are counted in a note (not judged)."""
+    from .effects import Effects
+
+    eff = Effects(repo)
+    r = RuleRun(prop, rule_id, floor=floor, what="coordinates a constructor keeps (attribute or closure) are private copies (np.array), not views of the caller's array (np.asarray)")
+    array_types = ("PointType", "PointListType", "VectorType", "NPPointType", "NPPointListType", "NPVectorType")
+    raw = 0
+    for fn in sorted(repo.all_functions(), key=lambda f: f.qualname):
+        short = fn.module.name[len("classy_blocks.") :] if fn.module.name.startswith("classy_blocks.") else fn.module.name
+        if fn.cls is None or fn.name != "__init__" or not any(short.startswith(p) for p in module_prefixes):
+            continue
+        arr = {a.arg for a in fn.node.args.args[1:] if a.annotation is not None and any(t in ast.unparse(a.annotation) for t in array_types)}
+        if not arr:
+            continue
+        # alias environment in statement order (top level; conditional re-bindings join)
+        alias: Dict[str, set] = {p: {p} for p in arr}
+        converted: Dict[str, ast.AST] = {}
+        for st in fn.node.body:
+            for n in [st, *walk_shallow(st)] if not isinstance(st, (ast.FunctionDef,)) else []:
+                if isinstance(n, ast.Assign) and len(n.targets) == 1 and isinstance(n.targets[0], ast.Name):
+                    rs = eff.roots(n.value, alias)
+                    strong = n in fn.node.body
+                    name = n.targets[0].id
+                    if isinstance(n.value, ast.Call) and n.value.args and isinstance(n.value.args[0], ast.Name) and n.value.args[0].id in arr:
+                        converted[name] = n
+                    alias[name] = set(rs) if strong else alias.get(name, set()) | rs
+        # escapes: names used inside nested functions / lambdas, or stored on self
+        escaping: Dict[str, ast.AST] = {}
+        for n in ast.walk(fn.node):
+            if isinstance(n, (ast.Lambda, ast.FunctionDef)) and n is not fn.node:
+                for x in ast.walk(n):
+                    if isinstance(x, ast.Name) and isinstance(x.ctx, ast.Load) and x.id in alias:
+                        escaping.setdefault(x.id, n)
+            if isinstance(n, ast.Assign) and any(isinstance(t, ast.Attribute) and attr_chain(t.value) == fn.params[0] for t in n.targets):
+                for x in ast.walk(n.value):
+                    if isinstance(x, ast.Name) and x.id in alias:
+                        escaping.setdefault(x.id, n)
+        for name, where in sorted(escaping.items()):
+            roots = alias.get(name, set()) & arr
+            if name in converted:
+                r.check(
+                    not roots,
+                    fn,
+                    f"'{name}' kept for later is a private copy ('{ast.unparse(converted[name])[:50]}')",
+                    f"{fn.qualname} keeps '{name}' for later ({'in a closure' if isinstance(where, (ast.Lambda, ast.FunctionDef)) else 'in an attribute'}) after '{ast.unparse(converted[name])[:60]}', which does not copy an "
+                    f"ndarray: the kept geometry is the caller's own array ({sorted(roots)[0] if roots else ''}). Callers pass vertex.position, which backport()/move_to change in place - the clamp's "
+                    "line / the link's reference point then moves with the vertex between two optimize() calls",
+                    converted[name],
+                    key=f"kept:{name}",
+                )
+            elif roots:
+                raw += 1
+    r.note(f"{raw} array parameter(s) kept without any conversion are not judged (callers pass literals there)")
+    return r
